@@ -27,6 +27,6 @@ OBLIGATIONS = [
        enc=['instant_to_tstamp'], sym='the instant (date, second of day or all-day)', bounds='every instant of 2001..2099', outside='nothing within the supported range',
        stubs=['ORC-cal oracle (validated against timegm by setup)']),
     ob('sched_occ2_step2', 2, 2),
-    ob('sched_occ2_step3', 2, 3),
+    ob('sched_occ2_step3', 2, 3, timeout=2400),
     ob('sched_occ3_step4', 3, 4, tiers=('thorough',), timeout=3400, mem_gb=24),
 ]
